@@ -1,5 +1,6 @@
 import Wx.Job.C09
 import Wx.Job.C09b
+import Wx.Job.C09c
 import Wx.Job.Api
 /-! # C09 — Job lifecycle follows the documented state machine
 
@@ -17,10 +18,10 @@ open Jm
 /-- **refinement, control arms**: handling any control is a step of the documented machine — same new state, exactly
     the spec's effects appended to the effect log, and the flag is raised iff the spec says "now" -/
 theorem control_refines (s : St) (m : Msg) (hall : s.cfg = Fixes.all)
-    (hch : ∀ c, s.cs = .running c → ∃ ch, s.child? c = some ch) (hf : s.isRaised m.done = false) :
+    (hch : ∀ c, s.cs = .running c → ∃ ch, s.child? c = some ch) :
     (handle s m).abs = (specStep s.abs m.ctl).1 ∧
     (handle s m).fx = (specStep s.abs m.ctl).2.1.reverse ++ s.fx ∧
-    (handle s m).isRaised m.done = (specStep s.abs m.ctl).2.2 := handle_refines s m hall hch hf
+    (s.isRaised m.done = false → (handle s m).isRaised m.done = (specStep s.abs m.ctl).2.2) := handle_refines s m hall hch
 
 /-- **refinement, natural exit**: the wait branch is the machine's exit step (finished with the child's status, one
     `reaped`, and a respawn exactly if a graceful restart was pending) -/
@@ -75,5 +76,19 @@ theorem respawn_records_previous (sp : Sp) : (sp.respawn.1).prev = some sp.cs :=
 theorem model_spawn_refines (s : St) (hn : NotRunning s) :
     (if s.spawn.2 = true then s.spawn.1 else s.spawn.1.errHandler).abs = s.abs.spawn.1 ∧
     (if s.spawn.2 = true then s.spawn.1 else s.spawn.1.errHandler).fx = s.abs.spawn.2.reverse ++ s.fx := spawn_refines s hn
+
+/-- **whole run**: whatever controls are sent at whatever priority, whatever the children do, however time passes and
+    every race resolves, the job's observable state and the log of everything it did to processes and hooks are those of a
+    run of the documented machine (`SpecRun`: one `specStep` per executed control, one `specExit` per natural end) -/
+theorem every_history_is_a_documented_run (behs : List Beh) (ops : List Op) :
+    let x0 : Sim := { st := { cfg := Fixes.all, behs := behs, hookSet := true, parked := true } }
+    ∀ y ∈ runOps x0 ops, SpecRun x0.st.abs y.st.abs y.st.fx := c09_whole_run behs ops
+
+/-- the documented machine does nothing to a process except in a step: an empty run has an empty effect log -/
+theorem documented_run_starts_silent (sp0 : Sp) : SpecRun sp0 sp0 [] := SpecRun.start
+
+/-- non-vacuity: start, then stop, on a child that exits on the signal — the reachable state has a non-empty effect log -/
+example : (runOps { st := { cfg := Fixes.all, behs := [.ignores], hookSet := true, parked := true } }
+    [.send .normal [.start] true, .settle, .send .normal [.stop] true, .settle]).all (fun x => x.st.fx.length ≥ 2) = true := by decide
 
 end Props.C09
